@@ -322,18 +322,23 @@ func (o *objectGoReflect) _put(name string, val Value, throw bool) (has, ok bool
 	if o.fieldsValue.Kind() == reflect.Struct {
 		if v := o._getField(name); v.IsValid() {
 			cached := o.valueCache[name]
+			converted := false
 			if cached != nil {
 				copyReflectValueWrapper(cached)
+				// re-attach the cached wrapper if the conversion fails, also when it fails by throwing
+				defer func() {
+					if !converted {
+						cached.setReflectValue(v)
+					}
+				}()
 			}
 
 			err := o.val.runtime.toReflectValue(val, v, &objectExportCtx{})
 			if err != nil {
-				if cached != nil {
-					cached.setReflectValue(v)
-				}
 				o.val.runtime.typeErrorResult(throw, "Go struct conversion error: %v", err)
 				return true, false
 			}
+			converted = true
 			if cached != nil {
 				delete(o.valueCache, name)
 			}
